@@ -112,7 +112,7 @@ func (vc *VC) funcRef(f *ssa.Function) *Term {
 	d := fmt.Sprintf("(declare-const %s Int)", nm)
 	if !vc.declSeen[d] {
 		vc.decl(d)
-		vc.axioms = append(vc.axioms, fmt.Sprintf("(assert (and (< %s 0) (= (base %s) %s)))", nm, nm, nm))
+		vc.axioms = append(vc.axioms, fmt.Sprintf("(assert (and (= %s (- %d)) (= (base %s) %s)))", nm, 2000000+vc.eng.funcID(f), nm, nm))
 	}
 	t := leaf(nm)
 	return t
@@ -602,7 +602,10 @@ func (fr *Frame) loopModifies(li *loopInfo, st *State) []string {
 // modKeys translates a coarse modifies item into component keys.
 func (fr *Frame) modKeys(m string) []string {
 	switch {
-	case m == "wm" || m == "world" || m == "held" || m == "chclosed":
+	case m == "held":
+		// a callee that takes locks also changes the acquisition counters
+		return []string{"held", "acq"}
+	case m == "wm" || m == "world" || m == "chclosed" || m == "acq":
 		return []string{m}
 	case m == "spawn":
 		// the whole log of go statements
@@ -627,8 +630,10 @@ func (vc *VC) sortForKey(k string) string {
 		return "Int"
 	case k == "MS":
 		return "(Array Int Int)"
-	case k == "held":
+	case k == "held" || k == "chclosed":
 		return "(Array Int Bool)"
+	case k == "acq":
+		return "(Array Int Int)"
 	case strings.HasPrefix(k, "G:"):
 		if g, ok := vc.eng.db.ghosts[k[2:]]; ok {
 			return vc.ghostSort(g.Type)
@@ -933,6 +938,7 @@ func (fr *Frame) step(ins ssa.Instruction, st *State, edges map[edgeKey]*State) 
 		p := fr.val(x.Addr)
 		fr.derefGuard(st, p, x, "store through nil pointer")
 		fr.checkFrame(st, x, p)
+		fr.checkGuarded(st, x, x.Addr)
 		fr.noEscape(x.Val, "stored")
 		if ref, ok := vc.atomicField[p.String()]; ok {
 			vc.storeAtomicField(st, ref, fr.val(x.Val))
@@ -1733,7 +1739,15 @@ func (fr *Frame) selectOp(x *ssa.Select, st *State) {
 		if !x.Blocking {
 			vc.assume(st.guard, mkImplies(mkEq(idx, app("-", leaf("1"))), mkNot(mkSelect(cc, fr.val(s.Chan)))))
 		}
-		_ = i
+		if !x.Blocking {
+			fr.checkGuardedChan(st, x, s.Chan, "poll")
+		}
+		// channels created here and never sent on deliver only by being closed (a nil channel never delivers)
+		if s.Dir == types.RecvOnly && vc.eng.closedOnlyChan(s.Chan.Type().Underlying().(*types.Chan).Elem()) {
+			ch := fr.val(s.Chan)
+			vc.assume(st.guard, mkImplies(mkEq(idx, intLit(int64(i))), mkAnd(mkSelect(cc, ch), mkNot(mkEq(ch, leaf("0"))))))
+			vc.assumptions["channels of element type "+s.Chan.Type().Underlying().(*types.Chan).Elem().String()+" are created in the repository and never sent on: a receive completes only after close"] = true
+		}
 	}
 	// the stack's channels are never sent on; a receive case can fire only when its channel is closed
 	// unless it is an external channel (ticker). Recorded via "chext" facts by the caller contract.
